@@ -29,6 +29,8 @@ def _case(i):
         name, prog = 'tmpl:stack0_data', gen.tmpl_stack0_data(rng)
     elif i % 12 == 9:
         name, prog = 'tmpl:forward_jump', gen.tmpl_forward_jump(rng)
+    elif i % 24 == 7:
+        name, prog = 'tmpl:big_fraction_output', gen.tmpl_big_fraction_output(rng)
     elif i % 24 == 15:
         name, prog = 'tmpl:first_command_source', gen.tmpl_first_command_source(rng)
         if rng.random() < 0.3:
